@@ -42,19 +42,23 @@ ValOf(buf) == IF \A i \in 0 .. NW - 1 : buf[i] = buf[0] THEN buf[0] ELSE -1
 Init == /\ MemInit
         /\ pc = [t \in Threads |-> "idle"]
         /\ loc = [t \in Threads |-> L0]
-        /\ lin = MonInit(InitV)
+        /\ lin = [mon |-> MonInit(InitV), bad |-> "ok"]
         /\ budget = [t \in Threads |-> IF t \in Writers THEN MaxWrites ELSE MaxLoads]
         /\ nextv = 2
-        /\ last = [t |-> -1, k |-> "init", lab |-> "init", v |-> 0, ok |-> 1]
+        /\ last = [t |-> -1, k |-> "init", lab |-> "init", v |-> 0, ok |-> 1, n |-> 0]
 
 Goto(t, l) == pc' = [pc EXCEPT ![t] = l]
-Acc(t, k, lab, v, ok) == last' = [t |-> t, k |-> k, lab |-> lab, v |-> v, ok |-> ok]
-Return(t, r, v) == lin' = MonRet(lin, t, r, v) /\ Goto(t, "idle")
+Acc(t, k, lab, v, ok) == last' = [t |-> t, k |-> k, lab |-> lab, v |-> v, ok |-> ok, n |-> last.n + 1]    \* n: access counter
+\* `lin` = linearizability monitor (real-time order, sequential consistency) + a memory-model independent ghost:
+\* a load must return all chunks of ONE value (never a torn or truncated mixture)
+Return(t, r, v) == /\ lin' = [mon |-> MonRet(lin.mon, t, r, v),
+                              bad |-> IF loc[t].op = "load" /\ v = -1 /\ lin.bad = "ok" THEN "torn or truncated load result" ELSE lin.bad]
+                   /\ Goto(t, "idle")
 
 \* ------------------------------------------------------------------ load
 StartLoad(t) == /\ t \notin Writers /\ pc[t] = "idle" /\ budget[t] > 0
                 /\ budget' = [budget EXCEPT ![t] = @ - 1]
-                /\ lin' = MonCall(lin, t, "load", 0, 0)
+                /\ lin' = [lin EXCEPT !.mon = MonCall(@, t, "load", 0, 0)]
                 /\ loc' = [loc EXCEPT ![t] = [L0 EXCEPT !.op = "load"]]
                 /\ Goto(t, "ld_seq") /\ Acc(t, "call", "load", 0, 1)
                 /\ UNCHANGED <<nextv, memvars>>
@@ -100,14 +104,14 @@ ld_seq2(t) == /\ pc[t] = "ld_seq2"
 \* ------------------------------------------------------------------ store / update
 StartStore(t) == /\ t \in Writers /\ pc[t] = "idle" /\ budget[t] > 0
                  /\ budget' = [budget EXCEPT ![t] = @ - 1]
-                 /\ lin' = MonCall(lin, t, "store", nextv, 0)
+                 /\ lin' = [lin EXCEPT !.mon = MonCall(@, t, "store", nextv, 0)]
                  /\ loc' = [loc EXCEPT ![t] = [L0 EXCEPT !.op = "store", !.arg = nextv]]
                  /\ nextv' = nextv + 1
                  /\ Goto(t, "al_ld") /\ Acc(t, "call", "store", nextv, 1)
                  /\ UNCHANGED memvars
 StartUpdate(t) == /\ t \in Writers /\ pc[t] = "idle" /\ budget[t] > 0
                   /\ budget' = [budget EXCEPT ![t] = @ - 1]
-                  /\ lin' = MonCall(lin, t, "update", 10, 0)       \* func adds 10 to the value it sees
+                  /\ lin' = [lin EXCEPT !.mon = MonCall(@, t, "update", 10, 0)]       \* func adds 10 to the value it sees
                   /\ loc' = [loc EXCEPT ![t] = [L0 EXCEPT !.op = "update", !.arg = 10]]
                   /\ Goto(t, "al_ld") /\ Acc(t, "call", "update", 10, 1)
                   /\ UNCHANGED <<nextv, memvars>>
@@ -170,6 +174,7 @@ Spec == Init /\ [][Next]_vars
 
 \* C14: every history of load / store / update is linearizable w.r.t. an atomic register; in particular
 \* every load result is (all NW chunks of) the initial value or some stored / updated value.
-Linearizable == lin # {}
+Linearizable == lin.mon # {}
+NoTornLoad == lin.bad = "ok"
 NoTornValue == \A t \in Threads : (pc[t] = "idle" /\ loc[t].op = "load") => TRUE
 =============================================================================
